@@ -132,16 +132,19 @@ package sourceaddrs
 //@   replay addrRoundTrip@C06:
 //@   ensures-bounded addrRoundTrip C06.remote.roundtrip-on-grammar: true
 //@   ensures C06.remote.subpath-url-safe: err == nil ==> urlSafePath(r.subPath)
+//@   ensures C06.remote.pkg-url-reparses: err == nil ==> urlReparses(r.pkg.url)
 //@   ensures C07.Parse.nouser: err == nil ==> r.pkg.url.User == nil
 //@   assume pat.remote: numSubexp(remoteSourceTypePattern) == 2
 
 //@ func ParseRegistrySource -> (r, err)
 //@   pure
 //@   sweep
+//@   ensures-bounded addrRoundTrip C06.registry.roundtrip-on-grammar: true
 
 //@ func ParseFinalRegistrySource -> (r, err)
 //@   pure
 //@   sweep
+//@   ensures-bounded addrRoundTrip C06.regfinal.roundtrip-on-grammar: true
 //@   assume pat.final: numSubexp(finalRegistrySourcePattern) == 4
 
 //@ func looksLikeFinalRegistrySource -> (r)
